@@ -194,6 +194,48 @@ example : (wait false false 0 [Ev.start, Ev.start, Ev.finish, Ev.start, Ev.finis
 example : Proper [Ev.start, Ev.start, Ev.finish, .sig .int] := by
   intro e he; simp at he; rcases he with rfl | rfl | rfl | rfl <;> simp
 
+/-- **shutdown_when_idle** (the code under test, `wait codeFixed`): after the shutdown request
+    (`flag = true`), whatever the count `n` at that moment and whatever follows, `wait` returns
+    SIGTERM exactly when the running count first reaches zero — after the handler events `pre`
+    that bring it there, without waiting for anything in `post`.  `pre = []` is the idle case:
+    no handler active at the time of the request, **including the empty history**. -/
+theorem shutdown_when_idle (n : Int) (pre post : List Ev) (hp : Handlers pre)
+    (hz : n + delta pre = 0) (hnz : ∀ k, k < pre.length → n + delta (pre.take k) ≠ 0) :
+    wait codeFixed true n (pre ++ post) = .returned .term pre.length 0 :=
+  wait_fixed_zero n pre post hp hz hnz
+
+/-- the idle case spelled out: zero handlers, no further event — returns at once. -/
+theorem shutdown_when_idle_empty : wait codeFixed true 0 [] = .returned .term 0 0 := rfl
+
+/-- `wait(true)` of the code under test is never parked with a zero count. -/
+theorem shutdown_never_parked_idle (n : Int) (evs : List Ev) (m : Int)
+    (h : wait codeFixed true n evs = .blocked m) : m ≠ 0 :=
+  wait_fixed_never_idle n evs m h
+
+/-- the shutdown sequence of `main`: a SIGINT that arrives when the handlers that started have
+    all finished (in particular on a proxy that never had a connection: `pre = []`) makes the
+    process exit without any further event. -/
+theorem shutdown_main_idle (pre post : List Ev) (hp : Handlers pre) (hz : delta pre = 0) :
+    mainSeq codeFixed (pre ++ .sig .int :: post) = .exited .term (pre.length + 1) 0 := by
+  unfold mainSeq
+  rw [wait_noflag _ 0 pre .int post hp]
+  simp only [Int.zero_add, hz]
+  have : (pre ++ Ev.sig Sig.int :: post).drop (pre.length + 1) = post := by
+    rw [show pre ++ Ev.sig Sig.int :: post = (pre ++ [Ev.sig Sig.int]) ++ post by simp]
+    rw [List.drop_left' (by simp)]
+  rw [this]
+  have := wait_fixed_zero 0 [] post (by intro e he; cases he) (by simp [delta]) (by simp)
+  simp only [List.nil_append, List.length_nil] at this
+  show (match wait true true 0 post with | .blocked m => _ | .returned s j m => _) = _
+  rw [this]
+
+/-- two connections come and go, SIGINT, one straggler event afterwards: exits at the SIGINT -/
+example : mainSeq codeFixed [Ev.start, Ev.start, Ev.finish, Ev.finish, .sig .int, Ev.start]
+    = .exited .term 5 0 := by decide
+/-- shutdown requested with 2 active handlers: returns when the second one finishes -/
+example : wait codeFixed true 2 [Ev.finish, Ev.start, Ev.finish, Ev.finish, Ev.start]
+    = .returned .term 4 0 := by decide
+
 /-- **F5, the defect of the released loop**: `wait(true)` started with no active handler and
     followed by no further event parks in `select` for ever (model with `fixed = false`). -/
 theorem idle_hang_counterexample : wait false true 0 [] = .blocked 0 := rfl
